@@ -13,7 +13,7 @@ R6 store accepted    : an assertion is returned only through the success edge of
 R5 no counter, no rewrite: update_credential is only reachable through the `Some` edge of the stored counter; a missing
                       counter is encoded by unwrap_or_default (0).
 """
-from . import core, flow, names
+from . import core, flow, names, normal, summary
 from .framework import where, short, api_name
 from .common import AUTH, ceremony, adt_ident, find_aggs, forward_taint, reads_field
 
@@ -33,43 +33,41 @@ def run(chk):
     p = core.load_program("all")
     chk.configs = ["all-features"]
     chk.explanation = __doc__
+    N = normal.Normalizer(p, summary.Summaries(p))
 
     # ---------------- R1 (make_credential)
     mc = ceremony(p, "make_credential")
     if chk.require("R1 initial value", "R1|make_credential", mc, AUTH, "Authenticator::make_credential async body not found"):
         chk.touched(mc)
         T = flow.Terms(p, mc)
-        og = flow.Origins(p)
         aggs = find_aggs(mc, "Passkey")
         chk.require("R1 initial value", "R1|Passkey-aggregate", len(aggs) == 1, where(mc), "expected exactly one Passkey construction, found %d" % len(aggs))
         for bb, idx, rv in aggs:
             fields = rv["fields"]
             op = rv["ops"][fields.index("counter")]
-            atoms = og.of_operand(mc, op)
+            # normal form: `flag.then_some(0)`, `if flag {Some(0)} else {None}`, `match` ... all become the same selection
+            term = N.norm(T.operand(op, bb, idx))
+            rws = normal.cases(term)
             bad = []
-            flag_seen = False
-            for a in atoms:
-                k = a[0]
-                if k == "const":
-                    if str(a[2]) not in ("0",) and a[1] not in ("()",) and not str(a[1]).startswith("fn") and "FnDef" not in str(a[1]):
-                        if a[3] and ("then_some" in a[3] or "then" in a[3]):
-                            continue
-                        bad.append("constant %s" % (a[2],))
-                elif k == "agg" and a[1].endswith("option::Option"):
-                    pass
-                elif k == "call" and (a[2].endswith("then_some") or a[2].endswith("bool>::then")):
-                    pass
-                elif k == "upvar" and "make_credentials_with_signature_counter" in a[2]:
-                    flag_seen = True
-                elif k == "upvar" and a[1] == 0 and a[2] == ():
-                    flag_seen = flag_seen  # whole self (method receiver)
-                elif k in ("closure", "discr", "via"):
-                    pass
+            is_flag = lambda x: isinstance(x, tuple) and len(x) == 3 and x[0] == "field" and x[2] == "make_credentials_with_signature_counter"
+            sel = {}
+            for cs, v in rws:
+                if v == normal.NONE:
+                    kind = "None"
+                elif v == normal.some(("const", 0)):
+                    kind = "Some(0)"
                 else:
-                    bad.append(flow.atoms_summary([a])[0])
-            term = flow.simplify_term(T.operand(op, bb, idx))
-            # the selecting condition must be the configuration flag
-            cond_ok = flow.term_contains(term, lambda x: isinstance(x, tuple) and len(x) == 3 and x[0] == "field" and x[2] == "make_credentials_with_signature_counter") or flag_seen
+                    kind = None
+                    bad.append(flow.term_str(v)[:80])
+                pol = set()
+                for t, l in cs:
+                    a, pl = flow.bool_atom(t, l)
+                    if is_flag(a):
+                        pol.add(pl)
+                    else:
+                        bad.append("selected by %s" % flow.term_str(a)[:80])
+                sel.setdefault(kind, set()).update(pol)
+            cond_ok = sel.get("Some(0)") == {True} and sel.get("None") == {False}
             chk.ob("R1 initial value", "R1|Passkey.counter|sources", not bad, where(mc, line=mc.blocks[bb]["stmts"][idx]["line"]),
                    "counter := %s; non-zero/foreign sources: %s" % (flow.term_str(term), bad or "none"))
             chk.ob("R1 initial value", "R1|Passkey.counter|selector", cond_ok, where(mc, line=mc.blocks[bb]["stmts"][idx]["line"]),
@@ -78,7 +76,7 @@ def run(chk):
             news = names.calls_to(mc, "AuthenticatorData::new")
             chk.require("R1 initial value", "R1|AuthenticatorData::new", len(news) == 1, where(mc), "expected one AuthenticatorData::new in make_credential")
             for nb, nt in news:
-                t2 = flow.simplify_term(T.operand(nt["args"][1], nb, "t"))
+                t2 = N.norm(T.operand(nt["args"][1], nb, "t"))
                 chk.ob("R1 initial value", "R1|registration-authdata-counter", t2 == term, where(mc, nb),
                        "AuthenticatorData::new counter = %s ; Passkey.counter = %s" % (flow.term_str(t2), flow.term_str(term)))
 
